@@ -61,7 +61,7 @@ class CallGraph:
     def _drop_edges(self, caller, ty, bb, t):
         base = ty.split("<")[0]
         for p in self.prog.fns:
-            if p.startswith("<" + base) and p.endswith(" as core::ops::Drop>::drop"):
+            if p.startswith("<" + base) and p.endswith(" as core::ops::drop::Drop>::drop"):
                 self._edge(caller, p, bb, t)
 
     def reach(self, roots, stop=None):
